@@ -262,5 +262,435 @@ theorem caseEndZ_eff (hsz : o.size = 1) : NeutralEff s o (caseEndZ env s) := by
       · exact map_assertion_eff hsz _ (charAt_nodisc _ _) _
       · exact ⟨rfl, rfl, Or.inl rfl, Or.inr ⟨0, rfl, by omega⟩⟩
 
+/-! ### forward mode -/
+
+/-- forward mode: the chain, the stack and the type assigned to the current instruction -/
+structure FwdH (p : Prog) (bs : List Nat) (env : Env) (a : Assign) (s : VMState) (S : STy) (σ : RTy)
+    (core : List Int) (tp : Int) : Prop where
+  hS : a.get s.codepos = some S
+  sub : subTy (erase σ) S = true
+  tr : s.track = core ++ [tp]
+  good : Good p bs env.len a core σ (crawlLen s)
+  vals : Vals env.len s.stack σ
+
+/-- the assigned type at `q` is above `S` -/
+def NextOk (a : Assign) (q : Nat) (S : STy) : Prop := ∃ Sn, a.get q = some Sn ∧ subTy S Sn = true
+
+theorem NextOk.succ {q : Nat} {S : STy} {σ : RTy} (h : NextOk a q S) (hs : subTy (erase σ) S = true) : Succ a q σ := by
+  obtain ⟨Sn, h1, h2⟩ := h
+  exact ⟨Sn, h1, subTy_trans hs h2⟩
+
+theorem neutral_fwd {S : STy} {σ : RTy} {core : List Int} {tp : Int} (c : Ctx p bs env s w o)
+    (h : FwdH p bs env a s S σ core tp) (hn : NextOk a (s.codepos + o.size) S)
+    (hft : ∀ (d : List Int) (dl : Int) (τ : RTy) (cl : Int), frameData o false = some d.length →
+      subTy (erase τ) S = true → FrameTy p env.len s.codepos o false S d dl τ cl τ cl)
+    (r : Res) (he : NeutralEff s o r) : TBodyOk p bs env.len a s.codepos r := by
+  cases r with
+  | error f => exact he
+  | ok r =>
+    obtain ⟨s1, e⟩ := r
+    obtain ⟨hst, hcap, htr, hex⟩ := he
+    have hcl : crawlLen s1 = crawlLen s := by unfold crawlLen; rw [hcap]
+    have hch : ChainS p bs env.len a s1 σ := by
+      rcases htr with ht | ⟨d, ht, hd⟩
+      · exact ⟨core, tp, by rw [ht, h.tr], by rw [hcl]; exact h.good, by rw [hst]; exact h.vals⟩
+      · refine ⟨(s.codepos : Int) :: (d ++ core), tp, by rw [ht, h.tr]; simp, ?_, by rw [hst]; exact h.vals⟩
+        rw [hcl]
+        exact good_push c false d core S σ σ _ _ hd (by intro h; cases h) h.hS (hft d _ σ _ hd h.sub) h.good
+    rcases hex with rfl | ⟨i, rfl, hi⟩
+    · exact ⟨σ, hch⟩
+    · refine ⟨σ, hch, ?_⟩
+      have : s.codepos + i + 1 = s.codepos + o.size := by omega
+      rw [this]
+      exact hn.succ h.sub
+
+theorem operand_val {i : Nat} {v : Int} (h : operand p s i = .ok v) : p.codes[s.codepos + i + 1]? = some v := by
+  unfold operand at h
+  split at h
+  · next u hu => cases h; exact hu
+  · cases h
+
+theorem target_spec {pc t' : Nat} (h : target p pc = some t') : ∀ t, p.codes[pc + 1]? = some t → t.toNat = t' := by
+  intro t ht
+  unfold target at h
+  rw [ht] at h
+  split at h
+  · next u hu => cases hu; cases h; rfl
+  · cases h
+
+theorem nothing_fwd {S : STy} {σ : RTy} {core : List Int} {tp : Int} (h : FwdH p bs env a s S σ core tp) :
+    TBodyOk p bs env.len a s.codepos (.ok (s, .back)) :=
+  ⟨σ, core, tp, h.tr, h.good, h.vals⟩
+
+theorem lazybranch_fwd {S : STy} {σ : RTy} {core : List Int} {tp : Int} (c : Ctx p bs env s w o) (ho : o = .lazybranch)
+    (h : FwdH p bs env a s S σ core tp) (hn : NextOk a (s.codepos + 2) S) :
+    TBodyOk p bs env.len a s.codepos (.ok (push1 s s.textpos, .advance 1)) := by
+  subst ho
+  refine ⟨σ, ⟨(s.codepos : Int) :: ([s.textpos] ++ core), tp, by simp [push1, h.tr], ?_, h.vals⟩, hn.succ h.sub⟩
+  exact good_push c false [s.textpos] core S σ σ _ _ rfl (by intro h; cases h) h.hS ⟨h.sub, rfl, rfl⟩ h.good
+
+theorem lazybranch_init (ht : s.track = []) (hst : s.stack = []) (hcr : s.cap.crawl = [])
+    (hpc : s.codepos = 0) (hn : Succ a 2 []) :
+    TBodyOk p bs env.len a s.codepos (.ok (push1 s s.textpos, .advance 1)) := by
+  refine ⟨[], ⟨[0], s.textpos, by simp [push1, ht, hpc], ?_, by simp [push1, hst, Vals]⟩, by rw [hpc]; exact hn⟩
+  have : crawlLen (push1 s s.textpos) = 0 := by simp [crawlLen, push1, hcr]
+  rw [this]; exact Good.root
+
+theorem goto_fwd {S : STy} {σ : RTy} {core : List Int} {tp : Int} (h : FwdH p bs env a s S σ core tp)
+    (hn : ∀ t, p.codes[s.codepos + 1]? = some t → NextOk a t.toNat S) :
+    TBodyOk p bs env.len a s.codepos (caseGoto p s) := by
+  unfold caseGoto
+  cases h0 : operand p s 0 with
+  | error f => exact operand_nodisc _ _ _ _ h0
+  | ok t => exact Or.inl ⟨σ, ⟨core, tp, h.tr, h.good, h.vals⟩, (hn t (operand_val h0)).succ h.sub⟩
+
+theorem setmark_fwd {S : STy} {σ : RTy} {core : List Int} {tp : Int} (c : Ctx p bs env s w o)
+    (ho : o = .setmark ∨ o = .nullmark) (v : Int) (k : RK) (hk : (o = .setmark ∧ k = .pos) ∨ (o = .nullmark ∧ k = .mark))
+    (hv : valOk env.len k v) (h : FwdH p bs env a s S σ core tp) (hn : NextOk a (s.codepos + 1) (k.erase :: S)) :
+    TBodyOk p bs env.len a s.codepos (.ok (push0 (spush s v), .advance 0)) := by
+  refine ⟨k :: σ, ⟨(s.codepos : Int) :: ([] ++ core), tp, by simp [push0, spush, h.tr], ?_, ⟨hv, h.vals⟩⟩,
+    hn.succ (subTy_cons (Kind.sub_refl _) h.sub)⟩
+  refine good_push c false [] core S (k :: σ) σ _ _ ?_ (by intro h; cases h) h.hS ?_ h.good
+  · rcases ho with rfl | rfl <;> rfl
+  · rcases hk with ⟨rfl, rfl⟩ | ⟨rfl, rfl⟩ <;> exact ⟨rfl, rfl⟩
+
+theorem setcount_fwd {S : STy} {σ : RTy} {core : List Int} {tp : Int} (c : Ctx p bs env s w o)
+    (mark : Int) (k : RK) (hk : (o = .setcount ∧ k = .pos) ∨ (o = .nullcount ∧ k = .mark))
+    (hv : valOk env.len k mark) (h : FwdH p bs env a s S σ core tp)
+    (hn : NextOk a (s.codepos + 2) (.count :: k.erase :: S)) :
+    TBodyOk p bs env.len a s.codepos (caseSetcount p mark s) := by
+  unfold caseSetcount
+  cases h0 : operand p s 0 with
+  | error f => exact operand_nodisc _ _ _ _ h0
+  | ok v =>
+    refine ⟨.count :: k :: σ, ⟨(s.codepos : Int) :: ([] ++ core), tp, by simp [push0, spush2, h.tr], ?_,
+      ⟨trivial, hv, h.vals⟩⟩, hn.succ (subTy_cons (Kind.sub_refl _) (subTy_cons (Kind.sub_refl _) h.sub))⟩
+    refine good_push c false [] core S (.count :: k :: σ) σ _ _ ?_ (by intro h; cases h) h.hS ?_ h.good
+    · rcases hk with ⟨rfl, _⟩ | ⟨rfl, _⟩ <;> rfl
+    · rcases hk with ⟨rfl, rfl⟩ | ⟨rfl, rfl⟩ <;> exact ⟨rfl, rfl⟩
+
+theorem setjump_fwd {S : STy} {σ : RTy} {core : List Int} {tp : Int} (c : Ctx p bs env s w o) (ho : o = .setjump)
+    (h : FwdH p bs env a s S σ core tp) (hn : NextOk a (s.codepos + 1) (.cdepth :: .tdepth :: S)) :
+    TBodyOk p bs env.len a s.codepos (caseSetjump s) := by
+  subst ho
+  unfold caseSetjump
+  have hlen : ((s.track.length : Nat) : Int) = (core.length : Int) + 1 := by rw [h.tr]; simp
+  refine ⟨.cd (crawlLen s) :: .td ((core.length : Int) + 1) :: σ,
+    ⟨(s.codepos : Int) :: ([] ++ core), tp, by simp [push0, spush2, h.tr], ?_, ⟨rfl, hlen, h.vals⟩⟩,
+    hn.succ (subTy_cons (Kind.sub_refl _) (subTy_cons (Kind.sub_refl _) h.sub))⟩
+  exact good_push c false [] core S _ σ _ _ rfl (by intro h; cases h) h.hS
+    ⟨rfl, rfl, by unfold crawlLen; omega⟩ h.good
+
+/-! ### `trackto` and `uncaptureTo` succeed -/
+
+theorem cutFrames_cut (tp : Int) : ∀ {t t' : List Int}, Cut p t t' → ∀ fuel, t.length + 1 ≤ fuel →
+    cutFrames p fuel (t.length - t'.length) (t ++ [tp]) = some (t' ++ [tp]) := by
+  intro t t' h
+  induction h with
+  | refl t => intro fuel _; simp [cutFrames]
+  | step c d rest t' hs hcut ih =>
+    intro fuel hf
+    have hle := hcut.length_le
+    obtain ⟨f, rfl⟩ : ∃ f, fuel = f + 1 := ⟨fuel - 1, by simp at hf; omega⟩
+    have hk : (c :: (d ++ rest)).length - t'.length = (d.length + (rest.length - t'.length)) + 1 := by
+      simp; omega
+    rw [hk]
+    simp only [List.cons_append, cutFrames, hs]
+    have hcond : d.length + 1 ≤ d.length + (rest.length - t'.length) + 1 ∧
+        d.length + 1 ≤ (d ++ rest ++ [tp]).length + 1 := by simp
+    rw [if_pos hcond]
+    have hdrop : (c :: (d ++ rest ++ [tp])).drop (d.length + 1) = rest ++ [tp] := by simp
+    rw [hdrop]
+    have : d.length + (rest.length - t'.length) + 1 - (d.length + 1) = rest.length - t'.length := by omega
+    rw [this]
+    exact ih f (by simp at hf; omega)
+
+theorem trackto_cut {core tr' : List Int} {tp : Int} (s1 : VMState) (ht : s1.track = core ++ [tp])
+    (hc : Cut p core tr') (y : Int) (hy : (tr'.length : Int) + 1 = y) :
+    trackto p s1 y = .ok { s1 with track := tr' ++ [tp] } := by
+  unfold trackto
+  have hle := hc.length_le
+  have h1 : 0 ≤ y ∧ y.toNat ≤ s1.track.length := by rw [ht]; simp; omega
+  rw [if_pos h1]
+  have h2 : s1.track.length - y.toNat = core.length - tr'.length := by rw [ht]; simp; omega
+  rw [h2, ht, cutFrames_cut tp hc _ (by simp)]
+  cases tr' <;> rfl
+
+theorem uncaptureTo_spec (target : Int) : ∀ (fuel : Nat) (s1 : VMState), 0 ≤ target → target ≤ crawlLen s1 →
+    crawlLen s1 - target ≤ fuel →
+    ∃ s2, uncaptureTo target fuel s1 = .ok s2 ∧ SameButCap s1 s2 ∧ crawlLen s2 = target := by
+  intro fuel
+  induction fuel with
+  | zero =>
+    intro s1 h0 h1 h2
+    have : (s1.cap.crawl.length : Int) = target := by unfold crawlLen at h1 h2; omega
+    exact ⟨s1, by simp [uncaptureTo, this], ⟨rfl, rfl, rfl, rfl, rfl⟩, this⟩
+  | succ fuel ih =>
+    intro s1 h0 h1 h2
+    unfold uncaptureTo
+    by_cases he : (s1.cap.crawl.length : Int) = target
+    · exact ⟨s1, by simp [he], ⟨rfl, rfl, rfl, rfl, rfl⟩, he⟩
+    · rw [if_neg he]
+      unfold crawlLen at h1 h2
+      cases hcr : s1.cap.crawl with
+      | nil => rw [hcr] at h1 he; simp at h1 he; omega
+      | cons x rest =>
+        have hu : uncapture s1 = .ok { s1 with cap := MatchBuilder.uncapture s1.cap } := by simp [uncapture, hcr]
+        have hlen : crawlLen { s1 with cap := MatchBuilder.uncapture s1.cap } = (rest.length : Int) := by
+          simp [crawlLen, MatchBuilder.uncapture, hcr]
+        rw [hcr] at h1 h2 he
+        simp only [List.length_cons] at h1 h2 he
+        obtain ⟨s2, e, hsame, hl⟩ := ih { s1 with cap := MatchBuilder.uncapture s1.cap } h0 (by rw [hlen]; omega)
+          (by rw [hlen]; omega)
+        refine ⟨s2, by simp only [hu]; exact e, ?_, hl⟩
+        obtain ⟨b1, b2, b3, b4, b5⟩ := hsame
+        exact ⟨b1, b2, b3, b4, b5⟩
+
+/-! ### forward cases that pop the grouping stack -/
+
+/-- the current stack type begins with a slot below kind `K` -/
+theorem fwd_top {S : STy} {σ : RTy} {core : List Int} {tp : Int} {K : Kind} {R : STy}
+    (h : FwdH p bs env a s S σ core tp) (hS : S = K :: R) :
+    ∃ k ρ v rest, σ = k :: ρ ∧ k.erase.sub K = true ∧ subTy (erase ρ) R = true ∧ s.stack = v :: rest ∧
+      valOk env.len k v ∧ Vals env.len rest ρ := by
+  have hsub := h.sub
+  rw [hS] at hsub
+  obtain ⟨k, ρ, rfl, h1, h2⟩ := subTy_cons_right hsub
+  obtain ⟨v, rest, e, h3, h4⟩ := h.vals.cons_inv
+  exact ⟨k, ρ, v, rest, rfl, h1, h2, e, h3, h4⟩
+
+theorem getmark_fwd {S R : STy} {σ : RTy} {core : List Int} {tp : Int} (c : Ctx p bs env s w o) (ho : o = .getmark)
+    (h : FwdH p bs env a s S σ core tp) (hS : S = .pos :: R) (hn : NextOk a (s.codepos + 1) R) :
+    TBodyOk p bs env.len a s.codepos (caseGetmark env s) := by
+  subst ho
+  obtain ⟨k, ρ, v, rest, rfl, hk, hρ, hst, hv, hvals⟩ := fwd_top h hS
+  have := RK.sub_pos hk; subst this
+  unfold caseGetmark
+  rw [hst]
+  simp only [texttoStack, if_pos (show 0 ≤ v ∧ v ≤ env.len from hv), Except.map]
+  refine ⟨ρ, ⟨(s.codepos : Int) :: ([v] ++ core), tp, by simp [textto, push1, h.tr], ?_, hvals⟩, hn.succ hρ⟩
+  exact good_push c false [v] core S ρ (.pos :: ρ) _ _ rfl (by intro h; cases h) h.hS
+    ⟨⟨.pos, rfl, rfl, hv⟩, rfl⟩ h.good
+
+theorem branchmark_fwd {S R : STy} {K : Kind} {σ : RTy} {core : List Int} {tp : Int} (c : Ctx p bs env s w o)
+    (ho : o = .branchmark) (h : FwdH p bs env a s S σ core tp) (hS : S = K :: R) (hK : StackTyping.isMark K = true)
+    (hn : NextOk a (s.codepos + 2) R)
+    (hj : ∀ t, p.codes[s.codepos + 1]? = some t → NextOk a t.toNat (.pos :: R)) :
+    TBodyOk p bs env.len a s.codepos (caseBranchmark p s) := by
+  subst ho
+  obtain ⟨k, ρ, mark, rest, rfl, hk, hρ, hst, hv, hvals⟩ := fwd_top h hS
+  have hkm := RK.sub_isMark hk hK
+  unfold caseBranchmark
+  rw [hst]
+  simp only
+  split
+  · cases h0 : operand p s 0 with
+    | error f => exact operand_nodisc _ _ _ _ h0
+    | ok t =>
+      refine Or.inl ⟨.pos :: ρ, ⟨(s.codepos : Int) :: ([s.textpos, mark] ++ core), tp, by simp [spush, push2, h.tr], ?_,
+        ⟨⟨c.tp0, c.tpn⟩, hvals⟩⟩, (hj t (operand_val h0)).succ (subTy_cons (Kind.sub_refl _) hρ)⟩
+      exact good_push c false [s.textpos, mark] core S (.pos :: ρ) (k :: ρ) _ _ rfl (by intro h; cases h) h.hS
+        ⟨⟨ρ, k, K, R, rfl, hS, hρ, rfl, hkm, hv⟩, rfl⟩ h.good
+  · refine ⟨ρ, ⟨-(s.codepos : Int) :: ([mark] ++ core), tp, by simp [pushNeg1, h.tr], ?_, hvals⟩, hn.succ hρ⟩
+    exact good_push c true [mark] core S ρ (k :: ρ) _ _ rfl (by intro _ h; cases h) h.hS
+      ⟨⟨k, rfl, hkm, hv⟩, rfl⟩ h.good
+
+theorem lazybranchmark_fwd {S R : STy} {K : Kind} {σ : RTy} {core : List Int} {tp : Int} (c : Ctx p bs env s w o)
+    (ho : o = .lazybranchmark) (h : FwdH p bs env a s S σ core tp) (hS : S = K :: R)
+    (hK : StackTyping.isMark K = true) (hn : NextOk a (s.codepos + 2) R) :
+    TBodyOk p bs env.len a s.codepos (caseLazybranchmark s) := by
+  subst ho
+  obtain ⟨k, ρ, old, rest, rfl, hk, hρ, hst, hv, hvals⟩ := fwd_top h hS
+  have hkm := RK.sub_isMark hk hK
+  unfold caseLazybranchmark
+  rw [hst]
+  simp only
+  split
+  · split
+    · refine ⟨ρ, ⟨(s.codepos : Int) :: ([s.textpos, old] ++ core), tp, by simp [push2, h.tr], ?_, hvals⟩, hn.succ hρ⟩
+      exact good_push c false [s.textpos, old] core S ρ (k :: ρ) _ _ rfl (by intro h; cases h) h.hS
+        ⟨⟨k, K, R, hS, hρ, c.tp0, c.tpn, rfl, hkm, hv⟩, rfl⟩ h.good
+    · refine ⟨ρ, ⟨(s.codepos : Int) :: ([s.textpos, s.textpos] ++ core), tp, by simp [push2, h.tr], ?_, hvals⟩,
+        hn.succ hρ⟩
+      exact good_push c false [s.textpos, s.textpos] core S ρ (k :: ρ) _ _ rfl (by intro h; cases h) h.hS
+        ⟨⟨k, K, R, hS, hρ, c.tp0, c.tpn, rfl, hkm, valOk_isMark hkm c.tp0 c.tpn⟩, rfl⟩ h.good
+  · refine ⟨ρ, ⟨-(s.codepos : Int) :: ([0, old] ++ core), tp, by simp [pushNeg2, h.tr], ?_, hvals⟩, hn.succ hρ⟩
+    exact good_push c true [0, old] core S ρ (k :: ρ) _ _ rfl (by intro _ h; cases h) h.hS
+      ⟨⟨k, hkm, hv, by simp⟩, rfl⟩ h.good
+
+/-- the current stack type begins with a counter over a mark -/
+theorem fwd_top2 {S : STy} {σ : RTy} {core : List Int} {tp : Int} {K : Kind} {R : STy}
+    (h : FwdH p bs env a s S σ core tp) (hS : S = .count :: K :: R) :
+    ∃ k ρ cnt mark rest, σ = .count :: k :: ρ ∧ k.erase.sub K = true ∧ subTy (erase ρ) R = true ∧
+      s.stack = cnt :: mark :: rest ∧ valOk env.len k mark ∧ Vals env.len rest ρ := by
+  obtain ⟨k1, ρ1, cnt, rest1, rfl, hk1, hρ1, hst, _, hvals1⟩ := fwd_top h hS
+  have := RK.sub_count hk1; subst this
+  obtain ⟨k, ρ, rfl, hk, hρ⟩ := subTy_cons_right hρ1
+  obtain ⟨mark, rest, rfl, hv, hvals⟩ := hvals1.cons_inv
+  exact ⟨k, ρ, cnt, mark, rest, rfl, hk, hρ, hst, hv, hvals⟩
+
+theorem branchcount_fwd {S R : STy} {K : Kind} {σ : RTy} {core : List Int} {tp : Int} (c : Ctx p bs env s w o)
+    (ho : o = .branchcount) (h : FwdH p bs env a s S σ core tp) (hS : S = .count :: K :: R)
+    (hK : StackTyping.isMark K = true) (hn : NextOk a (s.codepos + 3) R)
+    (hj : ∀ t, p.codes[s.codepos + 1]? = some t → NextOk a t.toNat (.count :: .pos :: R)) :
+    TBodyOk p bs env.len a s.codepos (caseBranchcount p s) := by
+  subst ho
+  obtain ⟨k, ρ, cnt, mark, rest, rfl, hk, hρ, hst, hv, hvals⟩ := fwd_top2 h hS
+  have hkm := RK.sub_isMark hk hK
+  unfold caseBranchcount
+  rw [hst]
+  simp only
+  refine eff_bind (P := TBodyOk p bs env.len a s.codepos) (operand_nodisc _ _ _) (fun _ h => h) (fun lim _ => ?_)
+  split
+  · refine ⟨ρ, ⟨-(s.codepos : Int) :: ([cnt, mark] ++ core), tp, by simp [pushNeg2, h.tr], ?_, hvals⟩, hn.succ hρ⟩
+    exact good_push c true [cnt, mark] core S ρ (.count :: k :: ρ) _ _ rfl (by intro _ h; cases h) h.hS
+      ⟨⟨k, rfl, hkm, hv⟩, rfl⟩ h.good
+  · refine eff_bind (P := TBodyOk p bs env.len a s.codepos) (operand_nodisc _ _ _) (fun _ h => h) (fun t ht => ?_)
+    refine Or.inl ⟨.count :: .pos :: ρ, ⟨(s.codepos : Int) :: ([mark] ++ core), tp, by simp [spush2, push1, h.tr], ?_,
+      ⟨trivial, ⟨c.tp0, c.tpn⟩, hvals⟩⟩,
+      (hj t (operand_val ht)).succ (subTy_cons (Kind.sub_refl _) (subTy_cons (Kind.sub_refl _) hρ))⟩
+    exact good_push c false [mark] core S (.count :: .pos :: ρ) (.count :: k :: ρ) _ _ rfl (by intro h; cases h) h.hS
+      ⟨⟨ρ, k, K, R, rfl, hS, hρ, rfl, hkm, hv⟩, rfl⟩ h.good
+
+theorem lazybranchcount_fwd {S R : STy} {K : Kind} {σ : RTy} {core : List Int} {tp : Int} (c : Ctx p bs env s w o)
+    (ho : o = .lazybranchcount) (h : FwdH p bs env a s S σ core tp) (hS : S = .count :: K :: R)
+    (hK : StackTyping.isMark K = true) (hn : NextOk a (s.codepos + 3) R)
+    (hj : ∀ t, p.codes[s.codepos + 1]? = some t → NextOk a t.toNat (.count :: .pos :: R)) :
+    TBodyOk p bs env.len a s.codepos (caseLazybranchcount p s) := by
+  subst ho
+  obtain ⟨k, ρ, cnt, mark, rest, rfl, hk, hρ, hst, hv, hvals⟩ := fwd_top2 h hS
+  have hkm := RK.sub_isMark hk hK
+  unfold caseLazybranchcount
+  rw [hst]
+  simp only
+  split
+  · cases h0 : operand p s 0 with
+    | error f => exact operand_nodisc _ _ _ _ h0
+    | ok t =>
+      refine Or.inl ⟨.count :: .pos :: ρ, ⟨-(s.codepos : Int) :: ([mark] ++ core), tp,
+        by simp [spush2, pushNeg1, h.tr], ?_, ⟨trivial, ⟨c.tp0, c.tpn⟩, hvals⟩⟩,
+        (hj t (operand_val h0)).succ (subTy_cons (Kind.sub_refl _) (subTy_cons (Kind.sub_refl _) hρ))⟩
+      exact good_push c true [mark] core S (.count :: .pos :: ρ) (.count :: k :: ρ) _ _ rfl (by intro _ h; cases h) h.hS
+        ⟨⟨ρ, k, rfl, rfl, hkm, hv⟩, rfl⟩ h.good
+  · refine ⟨ρ, ⟨(s.codepos : Int) :: ([s.textpos, cnt, mark] ++ core), tp, by simp [push3, h.tr], ?_, hvals⟩, hn.succ hρ⟩
+    exact good_push c false [s.textpos, cnt, mark] core S ρ (.count :: k :: ρ) _ _ rfl (by intro h; cases h) h.hS
+      ⟨⟨k, K, R, hS, hρ, c.tp0, c.tpn, rfl, hkm, hv⟩, rfl⟩ h.good
+
+/-- the current stack begins with the pair pushed by a `Setjump` -/
+theorem fwd_pair {S R : STy} {σ : RTy} {core : List Int} {tp : Int}
+    (h : FwdH p bs env a s S σ core tp) (hS : S = .cdepth :: .tdepth :: R) :
+    ∃ x y ρ rest, σ = .cd x :: .td y :: ρ ∧ subTy (erase ρ) R = true ∧ s.stack = x :: y :: rest ∧
+      Vals env.len rest ρ := by
+  obtain ⟨k1, ρ1, x, rest1, rfl, hk1, hρ1, hst, hv1, hvals1⟩ := fwd_top h hS
+  obtain ⟨x', rfl⟩ := RK.sub_cdepth hk1
+  obtain ⟨k2, ρ, rfl, hk2, hρ⟩ := subTy_cons_right hρ1
+  obtain ⟨y', rfl⟩ := RK.sub_tdepth hk2
+  obtain ⟨y, rest, rfl, hv2, hvals⟩ := hvals1.cons_inv
+  have hx : x = x' := hv1
+  have hy : y = y' := hv2
+  subst hx hy
+  exact ⟨x, y, ρ, rest, rfl, hρ, hst, hvals⟩
+
+theorem backjump_fwd {S R : STy} {σ : RTy} {core : List Int} {tp : Int}
+    (h : FwdH p bs env a s S σ core tp) (hS : S = .cdepth :: .tdepth :: R) :
+    TBodyOk p bs env.len a s.codepos (caseBackjump p s) := by
+  obtain ⟨x, y, ρ, rest, rfl, hρ, hst, hvals⟩ := fwd_pair h hS
+  obtain ⟨tr', hcut, hlen, hg, hx0, hxl⟩ := pair_lookup h.good [] x y ρ rfl
+  unfold caseBackjump
+  rw [hst]
+  simp only [bind, Except.bind]
+  rw [trackto_cut (p := p) (tp := tp) { s with stack := rest } h.tr hcut y hlen]
+  simp only
+  obtain ⟨s2, e, ⟨b1, b2, b3, b4, b5⟩, hl⟩ := uncaptureTo_spec x s.cap.crawl.length
+    { s with stack := rest, track := tr' ++ [tp] } hx0 hxl (by simp only [crawlLen]; omega)
+  rw [e]
+  exact ⟨ρ, tr', tp, b1, by rw [hl]; exact hg, by rw [b5]; exact hvals⟩
+
+theorem forejump_fwd {S R : STy} {σ : RTy} {core : List Int} {tp : Int} (c : Ctx p bs env s w o) (ho : o = .forejump)
+    (h : FwdH p bs env a s S σ core tp) (hS : S = .cdepth :: .tdepth :: R) (hn : NextOk a (s.codepos + 1) R) :
+    TBodyOk p bs env.len a s.codepos (caseForejump p s) := by
+  subst ho
+  obtain ⟨x, y, ρ, rest, rfl, hρ, hst, hvals⟩ := fwd_pair h hS
+  obtain ⟨tr', hcut, hlen, hg, hx0, hxl⟩ := pair_lookup h.good [] x y ρ rfl
+  unfold caseForejump
+  rw [hst]
+  simp only
+  rw [trackto_cut (p := p) (tp := tp) { s with stack := rest } h.tr hcut y hlen]
+  simp only [Except.map]
+  refine ⟨ρ, ⟨(s.codepos : Int) :: ([x] ++ tr'), tp, by simp [push1], ?_, hvals⟩, hn.succ hρ⟩
+  exact good_push c false [x] tr' S ρ ρ _ x rfl (by intro h; cases h) h.hS ⟨rfl, rfl, hx0, hxl⟩ hg
+
+theorem updatebumpalong_fwd {S : STy} {σ : RTy} {core : List Int} {tp : Int}
+    (h : FwdH p bs env a s S σ core tp) (hn : NextOk a (s.codepos + 1) S) :
+    TBodyOk p bs env.len a s.codepos (caseUpdateBumpalong s) := by
+  unfold caseUpdateBumpalong
+  have hl : s.track.getLast? = some tp := by rw [h.tr]; simp
+  rw [hl]
+  simp only
+  split
+  · refine ⟨σ, ⟨core, s.textpos, ?_, h.good, h.vals⟩, hn.succ h.sub⟩
+    show s.track.dropLast ++ [s.textpos] = core ++ [s.textpos]
+    rw [h.tr]; simp
+  · exact ⟨σ, ⟨core, tp, h.tr, h.good, h.vals⟩, hn.succ h.sub⟩
+
+/-! ### `Capturemark` -/
+
+theorem capture_crawl (r : MatchBuilder.Runner) (c : Nat) (x y : Int) :
+    (MatchBuilder.capture r c x y).crawl.length = r.crawl.length + 1 := by
+  unfold MatchBuilder.capture; split <;> simp
+
+theorem transferCapture_crawl (r : MatchBuilder.Runner) (c0 : Int) (c1 : Nat) (x y : Int) :
+    (MatchBuilder.transferCapture r c0 c1 x y).crawl.length = r.crawl.length + (if c0 ≠ -1 then 2 else 1) := by
+  unfold MatchBuilder.transferCapture
+  simp only
+  split <;> simp
+
+theorem capturemark_fwd {S R : STy} {σ : RTy} {core : List Int} {tp : Int} (c : Ctx p bs env s w o) (ho : o = .capturemark)
+    (h : FwdH p bs env a s S σ core tp) (hS : S = .pos :: R) (hn : NextOk a (s.codepos + 3) R) :
+    TBodyOk p bs env.len a s.codepos (caseCapturemark p s) := by
+  subst ho
+  obtain ⟨k, ρ, v, rest, rfl, hk, hρ, hst, hv, hvals⟩ := fwd_top h hS
+  have := RK.sub_pos hk; subst this
+  unfold caseCapturemark
+  refine eff_bind (P := TBodyOk p bs env.len a s.codepos) (operand_nodisc _ _ _) (fun _ h => h) (fun c0 h0 => ?_)
+  refine eff_bind (P := TBodyOk p bs env.len a s.codepos) (operand_nodisc _ _ _) (fun _ h => h) (fun c1 h1 => ?_)
+  have e0 := operand_val h0
+  have e1 := operand_val h1
+  have hK : capK p s.codepos = if c0 ≠ -1 ∧ c1 ≠ -1 then 2 else 1 := by
+    unfold capK; simp only [e0, e1, Option.getD_some, bne_iff_ne, ne_eq, Bool.and_eq_true, decide_eq_true_eq]
+  -- the frame pushed by both capturing branches
+  have key : ∀ (cap' : MatchBuilder.Runner), (cap'.crawl.length : Int) = crawlLen s + capK p s.codepos →
+      TMid p bs env.len a s.codepos (push1 { s with stack := rest, cap := cap' } v) (.advance 2) := by
+    intro cap' hc
+    refine ⟨ρ, ⟨(s.codepos : Int) :: ([v] ++ core), tp, by simp [push1, h.tr], ?_, hvals⟩, hn.succ hρ⟩
+    have hcl : crawlLen (push1 { s with stack := rest, cap := cap' } v) = crawlLen s + capK p s.codepos := by
+      simp only [crawlLen, push1]; exact hc
+    rw [hcl]
+    have hp := capK_pos p s.codepos
+    exact good_push c false [v] core S ρ (.pos :: ρ) _ (crawlLen s) rfl (by intro h; cases h) h.hS
+      ⟨⟨.pos, rfl, rfl, hv⟩, by omega, by unfold crawlLen; omega⟩ h.good
+  simp only
+  by_cases hc1 : c1 = -1
+  · subst hc1
+    simp only [bne_self_eq_false, Bool.false_eq_true, ite_false, pure, Except.pure, bind, Except.bind, hst]
+    split
+    · refine key _ ?_
+      rw [capture_crawl, hK]
+      simp [crawlLen]
+    · rfl
+  · have hne : (c1 != -1) = true := by simp [hc1]
+    simp only [hne, ite_true]
+    refine eff_bind (P := TBodyOk p bs env.len a s.codepos) (map_nodisc _ (isMatched_nodisc _ _)) (fun _ h => h)
+      (fun um _ => ?_)
+    split
+    · exact ⟨.pos :: ρ, core, tp, h.tr, h.good, h.vals⟩
+    · rw [hst]
+      simp only
+      split
+      · refine key _ ?_
+        rw [transferCapture_crawl, hK]
+        by_cases hc0 : c0 = -1 <;> simp [crawlLen, hc1, hc0]
+      · rfl
+
 end cases
 end RegexVerif.Lemmas.StackTypingSound
